@@ -75,7 +75,7 @@ def dry_step(arg):
     wd = H.scratch("infv_c08d_")
     info = {}
     try:
-        H.write_setup(wd, **setup)
+        CC.write_setup(wd, setup)
         inj = CH.Injector()
 
         class R(H.Recorder):
@@ -89,6 +89,8 @@ def dry_step(arg):
                     cnt["k"] += 1
                     if k == which:
                         info["before"] = disk_view(wd)
+                        if "hair" in setup and info["before"]["rec"] is not None:
+                            info["on_interface"] = CC.on_interface(wd)
                         info["status"] = md["status"]
                         info["pn_old"] = [int(md["picked"][e]["pn_old"]) for e in md["picked"]]
                         inj.active = True
@@ -244,18 +246,54 @@ def run(ctx):
             (dict(n_intf=4, workers=1, steps=9, seed=11, moves=["sh", "sh", "wf", "wf"], cap=3.25, delete_old=True, delete_old_all=True), None, list(range(9))),
             (dict(n_intf=4, workers=3, steps=8, seed=2, moves=["sh", "sh", "sh", "sh"]), [2, 0, 1, 1, 0, 0, 0, 0], list(range(8))),
         ]
+    # orders a hair off an interface: the lattice plug-in reports x + eps (|eps| < 5e-7) and the interfaces are
+    # INTEGERS, so a path that crosses its interface by eps in memory has, in order.txt (six decimals), a maximum
+    # EQUAL to the interface: strict and non-strict comparisons agree in the running process and differ after a
+    # restart.  eps > 0: interfaces 1..n, eps < 0: interfaces 0..n-1 (CC.write_setup).  The crashes are placed in
+    # steps whose old/new record lists a path stored exactly on the interface of its slot (checked below).
+    hair = [
+        (dict(n_intf=3, workers=1, steps=8, seed=3, moves=["sh", "sh", "sh"], delete_old=True, hair=2e-7), None,
+         [1, 4] if quick else list(range(8))),
+        (dict(n_intf=3, workers=1, steps=10, seed=3, moves=["sh", "sh", "wf"], cap=3.0, wall=-3, delete_old=True, hair=4e-7), None,
+         [1, 3] if quick else list(range(10))),
+    ]
+    if not quick:
+        hair += [
+            (dict(n_intf=4, workers=1, steps=10, seed=5, moves=["sh", "sh", "sh", "wf"], wall=-3, delete_old=True, delete_old_all=True, hair=4e-7),
+             None, [4, 5, 6, 7, 8, 9]),
+            # the cap of the wire-fencing ensembles on an integer strictly inside (frames a hair above the cap)
+            (dict(n_intf=5, workers=1, steps=12, seed=7, moves=["sh", "sh", "wf", "wf", "sh"], cap=4.0, wall=-3, delete_old=True, hair=3e-7),
+             None, [1, 4, 6, 7, 8, 9, 10]),
+            # two workers, lambda_minus_one on an integer
+            (dict(n_intf=4, workers=2, steps=10, seed=9, moves=["sh", "wf", "sh", "wf"], wall=-3, lambda_minus_one=-2.0, delete_old=True,
+                  delete_old_all=True, hair=4e-7), [1, 0, 1, 0, 0, 1, 0, 0, 0, 0], [1, 2, 5, 7, 8]),
+            # a hair BELOW: a stored maximum equal to the NEXT interface (weight gained at the restart), a [0-] path
+            # whose end points and a [i+] path whose start point are stored ON lambda_0
+            (dict(n_intf=3, workers=1, steps=10, seed=3, moves=["sh", "sh", "sh"], delete_old=True, hair=-2e-7), None, [1, 3, 4, 5, 7]),
+            (dict(n_intf=4, workers=1, steps=10, seed=5, moves=["sh", "sh", "wf", "wf"], cap=3.0, delete_old=True, hair=-4e-7), None, [3, 5, 6, 7, 8]),
+            (dict(n_intf=5, workers=1, steps=12, seed=7, moves=["sh", "sh", "wf", "wf", "sh"], cap=3.0, delete_old=True, hair=-3e-7), None,
+             [3, 5, 6, 8, 9]),
+        ]
+    scenarios += hair
     dry_args = [(setup, w, sched) for setup, sched, whiches in scenarios for w in whiches]
     dres = H.run_many(dry_step, dry_args, jobs=14, timeout=600)
     cases, cmeta, reqs_eff, eff_meta = [], [], [], []
+    hcases, hmeta, hair_steps = [], [], 0
     for (setup, which, sched), (tag, info) in zip(dry_args, dres):
         if tag != "ok" or "after" not in info:
             ctx.violation(f"harness failure in dry run {setup} step {which}: {str(info)[:300]}", {"setup": setup, "which": which, "error": str(info)}, found_input=False)
             continue
+        # the hair family is collected apart: the sample drawn from the other scenarios stays what it was
+        xcases, xmeta = (hcases, hmeta) if "hair" in setup else (cases, cmeta)
+        if "hair" in setup:
+            oi = info.get("on_interface") or []
+            hair_steps += 1 if any(mv == "sh" for _, _, mv in oi) else 0
+            ctx.dist(f"hair:eps{setup['hair']:+.0e}:live-on-interface:" + (",".join(sorted({mv for _, _, mv in oi})) or "none"))
         if info["before"]["rec"] is None:
             # first completed step: nothing persisted yet; a crash means a fresh start (not modelled, oracle only)
             for idx, kind, _ in info["log"]:
-                cases.append(dict(setup=setup, which=which, crash_at=idx, torn=False, schedule=sched))
-                cmeta.append(None)
+                xcases.append(dict(setup=setup, which=which, crash_at=idx, torn=False, schedule=sched))
+                xmeta.append(None)
             continue
         abst, aprob = abstract_log(info)
         news, removed, olds, need = step_spec(info)
@@ -340,11 +378,12 @@ def run(ctx):
             for j, ridx in enumerate(idxs):
                 kind = info["log"][ridx][1]
                 mt = 1 if (j > 0 and tear) else 0
-                cases.append(dict(setup=setup, which=which, crash_at=ridx, torn=False, schedule=sched))
-                cmeta.append((base, mi, mt, info))
+                xcases, xmeta = (hcases, hmeta) if "hair" in setup else (cases, cmeta)
+                xcases.append(dict(setup=setup, which=which, crash_at=ridx, torn=False, schedule=sched))
+                xmeta.append((base, mi, mt, info))
                 if kind.startswith("write"):
-                    cases.append(dict(setup=setup, which=which, crash_at=ridx, torn=True, schedule=sched))
-                    cmeta.append((base, mi, 1 if tear else 0, info))
+                    xcases.append(dict(setup=setup, which=which, crash_at=ridx, torn=True, schedule=sched))
+                    xmeta.append((base, mi, 1 if tear else 0, info))
     # buffered writes: what a process writes reaches the disk when the file is flushed or closed (the
     # flush is the effect; a file still open at the crash loses its buffer).  Oracle only.
     for (setup, which, sched), (tag, info) in zip(dry_args, dres):
@@ -352,10 +391,11 @@ def run(ctx):
             continue
         n_open = sum(1 for _, kind, _ in info["log"] if kind.startswith("open"))
         n_write = sum(1 for _, kind, _ in info["log"] if kind.startswith("write"))
+        xcases, xmeta = (hcases, hmeta) if "hair" in setup else (cases, cmeta)
         for idx in range(len(info["log"]) - n_write + n_open + 1):
             for torn in (False, True):
-                cases.append(dict(setup=setup, which=which, crash_at=idx, torn=torn, schedule=sched, buffered=True))
-                cmeta.append(None)
+                xcases.append(dict(setup=setup, which=which, crash_at=idx, torn=torn, schedule=sched, buffered=True))
+                xmeta.append(None)
     # sample when too many
     cap = 2500 if quick else 16000
     if len(cases) > cap:
@@ -375,6 +415,25 @@ def run(ctx):
         extra.append(c2)
     cases += extra
     cmeta += [None] * len(extra)
+    # the hair family (own budget; drawn after everything else, so the draws above are what they were)
+    if hair and not hair_steps:
+        ctx.violation("no traced step of the 'hair off an interface' set-ups has a live plain-shooting path stored exactly on its interface: "
+                      "the family tests nothing", {"setups": [h[0] for h in hair]}, found_input=False)
+    hcap = 420 if quick else 5000
+    if len(hcases) > hcap:
+        keep = sorted(rng.sample(range(len(hcases)), hcap))
+        hcases = [hcases[i] for i in keep]
+        hmeta = [hmeta[i] for i in keep]
+    hextra = []
+    for c in rng.sample(hcases, min(10 if quick else 150, len(hcases))):
+        c2 = dict(c)
+        W = c["setup"]["workers"]
+        c2["schedule"] = [rng.randrange(W) for _ in range(12)]
+        c2["second"] = (rng.randint(0, 1), rng.randint(0, 80), rng.random() < 0.5)
+        hextra.append(c2)
+    n_hair = len(hcases) + len(hextra)
+    cases += hcases + hextra
+    cmeta += hmeta + [None] * len(hextra)
     res = H.run_many(CC.crash_case, cases, jobs=14, timeout=900)
     for c in cases[:3]:
         ctx.sample({k: v for k, v in c.items()})
@@ -392,9 +451,20 @@ def run(ctx):
         if harness and nbad < 6:
             nbad += 1
             ctx.violation(f"harness problem: {harness[0][:300]}", {"case": case, "problems": r["problems"]}, found_input=False)
+        if "hair" in case["setup"] and not r["info"].get("no_crash"):
+            oi = r["info"].get("on_interface")
+            ctx.dist("hair-restart:" + ("fresh-start" if oi is None else "unreadable" if isinstance(oi, str) else
+                                        "loads-path-stored-on-its-interface:" + (",".join(sorted({mv for _, _, mv in oi})) or "none")))
         if mine and nbad < 6:
             nbad += 1
-            ctx.violation(f"C08 statement fails on the implementation: {mine[0][:300]}", {"case": case, "problems": r["problems"], "info": r["info"]}, found_input=True)
+            where = ""
+            if "hair" in case["setup"]:
+                st = case["setup"]
+                where = (f" [set-up: interfaces on the integers {CC.hair_interfaces(st['n_intf'], st['hair'])}, orders = position {st['hair']:+.0e}, moves {st['moves']}, "
+                         f"seed {st['seed']}, W={st['workers']}; crash in step {case['which'] + 1}"
+                         f"{', buffered writes' if case.get('buffered') else ''}{', torn' if case['torn'] else ''}"
+                         f"{'; live paths stored exactly on the interface of their slot (slot, path, move): ' + str(r['info']['on_interface']) if r['info'].get('on_interface') else ''}]")
+            ctx.violation(f"C08 statement fails on the implementation: {mine[0][:300]}{where}", {"case": case, "problems": r["problems"], "info": r["info"]}, found_input=True)
         if meta is not None and not r["info"].get("no_crash") and "cstep_after_crash" in r["info"] and "rows_after_trim" in r["info"]:
             base, mk, mt, info = meta
             reqs.append(base.rsplit(" ", 0)[0] + f" {mk} {mt}")
@@ -415,7 +485,8 @@ def run(ctx):
             ctx.violation(f"after a crash at {r['info']['crashed_effect']} the restart finds (cstep, rows) = {got}, the model {model}",
                           {"case": case, "implementation": got, "model": out}, found_input=False)
     ctx.cov["rule"] = "one evaluation = one logged effect of a real treat_output matched with the model's effect list, or one crash experiment (kill at one effect index, restart, continue) judged by the oracle and compared with the model's recover(crash k t)"
-    ctx.cov["correspondence"] = {"steps_traced": len(eff_meta), "crash_experiments": len(cases), "compared_with_model": len(reqs)}
+    ctx.cov["correspondence"] = {"steps_traced": len(eff_meta), "crash_experiments": len(cases), "compared_with_model": len(reqs),
+                                 "of_which_orders_a_hair_off_an_interface": n_hair}
     ctx.cov["trusted_base"] += ["extraction + ocaml/c08_driver.ml", "py/crash_harness.py fault injector", "py/sysharness.py"]
     ctx.assumptions += ["a crash is process death: POSIX durability (fsync, page cache) is not modelled"]
 
